@@ -150,6 +150,9 @@ func quietKlog() {
 
 // ---- universe / cluster ---------------------------------------------------------------------
 
+// mutChance: share of universe entries whose dependency references are spelled as apply-time mutations
+var mutChance = 0.3
+
 func genUniverse(r *rand.Rand, p profile, mutOK bool) Universe {
 	var es []UEntry
 	add := func(prob float64, e UEntry) {
@@ -210,7 +213,7 @@ func genUniverse(r *rand.Rand, p profile, mutOK bool) Universe {
 		}
 		// dependency references spelled as apply-time-mutation substitutions; only in histories
 		// without dry-run (there the source does not exist and the mutator fails)
-		if mutOK && !es[i].FInv && chance(r, 0.3) {
+		if mutOK && !es[i].FInv && chance(r, mutChance) {
 			es[i].Mut = true
 		}
 		// the manifests of this id arrive with an owning-inventory annotation on them
@@ -996,6 +999,8 @@ type collector struct {
 	prop      string
 	sum       *emit.Summary
 	hist      []History
+	histMonly []History // histories outside the model's domain: only the trace monitors are evaluated on them
+	dryMut    bool      // the history being generated spells dependencies as apply-time mutations although it has dry-runs
 	runs      int
 	flaky     []string
 	failures  []string
@@ -1049,6 +1054,9 @@ func (c *collector) run(st *Store, sc Scenario) RunResult {
 		if res.LateSent > 0 {
 			c.sum.Count("late:run-with-late-status-taken")
 		}
+	}
+	if res.SelfClosed > 0 {
+		c.sum.Count("watcher:closed-by-itself-after-fatal-error")
 	}
 	if n, ok := settleGoroutines(c.baseG, 300*time.Millisecond); !ok {
 		c.failures = append(c.failures, fmt.Sprintf("goroutine leak: %d goroutines after the run, %d before [in: %s]", n, c.baseG, sc.Text()))
@@ -1152,6 +1160,10 @@ func (c *collector) count(sc Scenario, res RunResult) {
 }
 
 func (c *collector) add(h History) {
+	if c.dryMut {
+		c.histMonly = append(c.histMonly, h)
+		return
+	}
 	c.hist = append(c.hist, h)
 }
 
@@ -1619,7 +1631,10 @@ func (c *collector) base(r *rand.Rand, p profile, budget *int) {
 		}
 	}
 	allowDry := nDry > 0 && chance(r, []float64{0.5, 0.85}[b2i(2*nDry >= len(p.dry))])
-	u := genUniverse(r, p, !allowDry)
+	if c.dryMut {
+		allowDry = true
+	}
+	u := genUniverse(r, p, !allowDry || c.dryMut)
 	init := genCluster(r, p, u)
 	st := NewStore(u, init)
 	h := History{Univ: u, Initial: init, Reuse: chance(r, 0.5)}
@@ -1835,6 +1850,22 @@ func runProfile(p profile, seed int64, tier, outDir string) (*emit.Summary, erro
 	for budget > 0 {
 		c.base(r, p, &budget)
 	}
+	if p.name == "C10" {
+		// monitor-only stream (seed C10f): dry-run histories whose dependencies are spelled as apply-time
+		// mutations. The source of a substitution does not exist in a first dry-run, the mutator fails and
+		// the object is reported failed — a path outside the model; mon_C10 reads the trace only.
+		c.dryMut = true
+		mutChance = 0.75
+		defer func() { mutChance = 0.3 }()
+		extra := 110
+		if tier == "thorough" {
+			extra = 900
+		}
+		for extra > 0 {
+			c.base(r, p, &extra)
+		}
+		c.dryMut = false
+	}
 	elapsed := time.Since(t0)
 	// requests arriving long after a run ended would show up as goroutines
 	time.Sleep(100 * time.Millisecond)
@@ -1866,6 +1897,25 @@ func runProfile(p profile, seed int64, tier, outDir string) (*emit.Summary, erro
 			return nil, err
 		}
 	}
+	for i := 0; i < len(c.histMonly); i += perFile {
+		cf := &emit.CaseFile{Name: fmt.Sprintf("Cases_%s_monly_%d", p.name, i/perFile),
+			Imports: "From CliUtils Require Import Model.PipelineTypes Corr.CorrPipeline.",
+			Check:   "check_" + p.name + "_monly"}
+		for _, h := range c.histMonly[i:min(i+perFile, len(c.histMonly))] {
+			t := h.Coq()
+			cf.Add(t, "[monitor-only] "+h.Text())
+			terms = append(terms, t)
+			nt := false
+			for _, o := range h.Outs {
+				nt = nt || o.Nontrivial()
+			}
+			nontr = append(nontr, nt)
+		}
+		if err := cf.Write(outDir, sum); err != nil {
+			return nil, err
+		}
+	}
+	sum.Extra["monitor_only_histories"] = len(c.histMonly)
 	sum.Evaluations = c.runs
 	sum.DistinctNontrivial = emit.Distinct(terms, nontr)
 	sum.Rule = "one case = one history (initial cluster + 1..4 runs of the real Applier/Destroyer over the fake API server and the scripted watcher); " +
